@@ -70,6 +70,8 @@ def fast_configs(tier):
         ("clique2+lone1", [2, 1], [clique_motif, lone], ["2-clique", "lone"]),
         # a topology name is an arbitrary label: here a tuple, not a str
         ("clique3-tuple-name", [3], [clique_motif], [("3-clique", 3)]),
+        # two topologies that carry the same label but have motifs with different numbers of edges
+        ("clique2+clique3-same-name", [2, 3], [clique_motif, clique_motif], ["clique", "clique"]),
     ]
     if tier == "thorough":
         cfgs += [
